@@ -287,7 +287,16 @@ def run(ctx):
     if ctx.replay:
         rp = json.load(open(ctx.replay))
         tasks = [tuple(rp["first"]["detail"]["task"])]
-    res = pool.run_tasks(_replay, tasks, workers=16, timeout=60, batch=32)
+    # histories that go through a file carrier run in a fresh process each: process-global state of a reader (caches) must not be
+    # able to hide behind what earlier tests in the same worker happened to load
+    isolated = [i for i, t in enumerate(tasks) if sum(1 for s in t[0]["hist"] if s["op"] in ("hdf5", "pdb")) >= 2]
+    iso = set(isolated)
+    res = [None] * len(tasks)
+    shared = [i for i in range(len(tasks)) if i not in iso]
+    for i, r in zip(shared, pool.run_tasks(_replay, [tasks[i] for i in shared], workers=16, timeout=60, batch=32)):
+        res[i] = r
+    for i, r in zip(isolated, pool.run_tasks(_replay, [tasks[i] for i in isolated], workers=16, timeout=60, batch=1, fresh=True)):
+        res[i] = r
     fails = []
     for t, (st, val) in zip(tasks, res):
         if st == "ok" and val is None:
